@@ -788,6 +788,59 @@ type EqInput struct {
 	A   *Node  `json:"a"`
 	B   *Node  `json:"b"`
 	Mut string `json:"mut"`
+	// Share: slice leaves of B that are a prefix of the leaf at the same place
+	// in A are re-slices of A's leaf (same backing array), as a shallow
+	// "one element fewer" edit of a copy produces
+	Share bool `json:"share,omitempty"`
+}
+
+// eqShare walks two built trees in parallel and replaces slice leaves of y
+// (direct Stack elements and Condition expressions) by re-slices of x's leaf
+// with y's own length and capacity.  Returns the number of leaves shared.
+func eqShare(x, y any) (n int) {
+	defer func() { recover() }()
+	reslice := func(xv, yv any) (any, bool) {
+		a, b := reflect.ValueOf(xv), reflect.ValueOf(yv)
+		if !a.IsValid() || !b.IsValid() || a.Kind() != reflect.Slice || b.Kind() != reflect.Slice ||
+			a.Type() != b.Type() || a.IsNil() || b.IsNil() || b.Len() > a.Len() || b.Cap() > a.Cap() || b.Cap() < b.Len() {
+			return nil, false
+		}
+		for i := 0; i < b.Len(); i++ {
+			if !reflect.DeepEqual(a.Index(i).Interface(), b.Index(i).Interface()) {
+				return nil, false
+			}
+		}
+		return a.Slice3(0, b.Len(), b.Cap()).Interface(), true
+	}
+	switch xs := x.(type) {
+	case stk.Stack:
+		ys, ok := y.(stk.Stack)
+		if !ok || xs.Len() != ys.Len() {
+			return 0
+		}
+		for i := 0; i < xs.Len(); i++ {
+			xe, _ := xs.Index(i)
+			ye, _ := ys.Index(i)
+			if z, ok := reslice(xe, ye); ok {
+				if ys.Replace(z, i) {
+					n++
+				}
+				continue
+			}
+			n += eqShare(xe, ye)
+		}
+	case stk.Condition:
+		ys, ok := y.(stk.Condition)
+		if !ok {
+			return 0
+		}
+		if z, ok := reslice(xs.Expression(), ys.Expression()); ok {
+			ys.SetExpression(z)
+			return 1
+		}
+		return eqShare(xs.Expression(), ys.Expression())
+	}
+	return n
 }
 
 func eqCall(x, y any) (code int, msg string) {
@@ -835,6 +888,10 @@ func runEqual(raw json.RawMessage) (*Result, error) {
 		return nil, fmt.Errorf("equal: input needs a and b")
 	}
 	a, b := in.A.Build(), in.B.Build()
+	shared := 0
+	if in.Share {
+		shared = eqShare(a, b)
+	}
 	ab, abm := eqCall(a, b)
 	ba, bam := eqCall(b, a)
 	tags := map[string]bool{"mut:" + in.Mut: true}
@@ -853,6 +910,10 @@ func runEqual(raw json.RawMessage) (*Result, error) {
 		tags["nested"] = true
 	}
 	obs := map[string]any{"ab": ab, "ba": ba}
+	if in.Share {
+		obs["shared_leaves"] = shared
+		tags[fmt.Sprintf("shared:%d", shared)] = true
+	}
 	if abm != "" {
 		obs["ab_panic"] = abm
 	}
@@ -1018,6 +1079,9 @@ func genEqual(ctx *Ctx, emit func(any, string)) {
 		}
 		for _, m := range ms {
 			emit(EqInput{A: root, B: m.tree, Mut: m.label}, src)
+			if m.label == "slice-fewer" || m.label == "slice-fewer-cap" {
+				emit(EqInput{A: root, B: m.tree, Mut: m.label + "-shared", Share: true}, src)
+			}
 		}
 	}
 	// ---- exhaustive: one deterministic sample of every catalogue type, as
